@@ -78,6 +78,9 @@ class Verifier(Engine):
                 self.inputs[nm] = v
                 for x in cs:
                     st.assume(x)
+                for oid, fields in self._pending_objects:      # objects reachable from parameters
+                    st.heap[oid] = fields
+                self._pending_objects = []
         # ghost state
         if c.hooks is not None:
             st.heap["g"] = {}
@@ -295,8 +298,11 @@ class Verifier(Engine):
         return [(st, (Signal.NORMAL, None))]
 
     def return_hints(self, s, st):
-        if "return" in self.contract.hints and not self.concrete and st.frames[-1].func is self.fi:
-            for hint in self.contract.hints["return"]:
+        if self.concrete or st.frames[-1].func is not self.fi:
+            return
+        keys = ["return", self.fi.site(s, "return")]       # all returns, then this one: "return[k]"
+        for key in keys:
+            for hint in self.contract.hints.get(key, []):
                 if hint[0] == "use":
                     try:
                         self.use_lemma(hint[1], hint[2], st)
